@@ -72,7 +72,13 @@ pub fn render(e: &Value, syn: &str, out: &mut Vec<u32>) {
             let mut cs: Vec<u32> = arr(&e["cs"]).iter().filter_map(|c| c.as_u64()).map(|c| c as u32).collect();
             cs.sort();
             cs.dedup();
+            // a '-' goes last so that it is a member, not a range operator
+            let dash = cs.contains(&45);
+            cs.retain(|c| *c != 45);
             out.extend(cs);
+            if dash {
+                out.push(45);
+            }
             out.push(93);
         }
         "cat" => {
